@@ -39,6 +39,8 @@ def main():
                                   log_level='INFO')
         try:
             merged, decisions = merge_notebooks(nbs['base'], nbs['local'], nbs['remote'], args)
+            # cells for which the library merge returns no id (nbformat's serialiser then invents a random one)
+            noid = [i for i, c in enumerate(merged.get('cells', [])) if 'id' not in c]
             s = nbformat.writes(merged)
 
             class Cnt(io.StringIO):
@@ -53,7 +55,7 @@ def main():
             except Exception:
                 dc = -1
             out.append({'ok': {'merged': json.loads(s), 'conflicts': sum(1 for d in decisions if d.conflict),
-                               'decisions': len(decisions), 'ser_nl': s.endswith('\n'), 'dec_chunks': dc}})
+                               'decisions': len(decisions), 'ser_nl': s.endswith('\n'), 'dec_chunks': dc, 'cells_without_id': noid}})
         except Exception as e:
             names = [f.name for f in traceback.extract_tb(e.__traceback__)]
             stage = 4 if 'apply_decisions' in names else 3 if 'decide_merge_with_diff' in names else 1 if 'diff_notebooks' in names else 0
